@@ -5,6 +5,7 @@ import (
 	"go/constant"
 	"go/token"
 	"go/types"
+	"regexp/syntax"
 	"strings"
 
 	"golang.org/x/tools/go/ssa"
@@ -15,7 +16,7 @@ func init() { registry["C17"] = propC17 }
 func propC17() *Property {
 	return &Property{
 		ID:          "C17",
-		Explanation: "Static guard and shape rules on package object. Decided: (R1) every conversion from a floating-point to an integer type in the module is dominated by a lower and an upper range test on the converted value (Go leaves out-of-range results implementation-defined) and, in GetNumber, by the integrality test; (R2) package object cannot panic: every type assertion is comma-ok, there is no indexing, slicing, map write or explicit panic; (R3) the non-error result of GetString is the result of ansi.Scrub and known non-empty, the empty case returns the 'absent' sentinel, and GetTime/GetURL/GetMediaType/GetMarkup obtain their text only through GetString; (R4) getPrimitive returns 'absent' (wrapping ErrKeyNotPresent) exactly on the missing-key/null edges, 'wrong type' on the failed-assertion edge and the asserted value itself on success; no other error wraps the 'absent' sentinel; no accessor returns a non-nil error together with a non-zero value; (R5) GetList returns the list itself or a one-element literal holding the value. (R4, addition) the document map is read (index, range) only inside getPrimitive; (R6) the sanitiser behind GetString is total (same rule as C01.R4); (R7) pointer-valued accessors return a non-nil value whenever they return a nil error, through their helpers; (R8) what GetNumber returns next to a nil error is the uint64 conversion of the very float64 it took out of the document (not a value that went through text, another float width or arithmetic). Not decided: time.Parse, url.Parse, the media-type regexp, encoding/json's number decoding, and the exact numeric value preserved by the conversion (value semantics).",
+		Explanation: "Static guard and shape rules on package object. Decided: (R1) every conversion from a floating-point to an integer type in the module is dominated by a lower and an upper range test on the converted value (Go leaves out-of-range results implementation-defined) and, in GetNumber, by the integrality test; (R2) package object cannot panic: every type assertion is comma-ok, there is no indexing, slicing, map write or explicit panic; (R3) the non-error result of GetString is the result of ansi.Scrub and known non-empty, the empty case returns the 'absent' sentinel, and GetTime/GetURL/GetMediaType/GetMarkup obtain their text only through GetString; (R4) getPrimitive returns 'absent' (wrapping ErrKeyNotPresent) exactly on the missing-key/null edges, 'wrong type' on the failed-assertion edge and the asserted value itself on success; no other error wraps the 'absent' sentinel; no accessor returns a non-nil error together with a non-zero value; (R5) GetList returns the list itself or a one-element literal holding the value. (R4, addition) the document map is read (index, range) only inside getPrimitive; (R6) the sanitiser behind GetString is total (same rule as C01.R4); (R7) pointer-valued accessors return a non-nil value whenever they return a nil error, through their helpers; (R8) what GetNumber returns next to a nil error is the uint64 conversion of the very float64 it took out of the document (not a value that went through text, another float width or arithmetic). (R10) the pattern behind mime.Parse is parsed and the character class of each of its two name groups is, as a set, exactly the token characters of RFC 9110. Not decided: time.Parse, url.Parse, the media-type regexp, encoding/json's number decoding, and the exact numeric value preserved by the conversion (value semantics).",
 		Assumptions: []string{"encoding/json decodes numbers into float64, arrays into []any, objects into map[string]any"},
 		Rules: []Rule{
 			{ID: "C17.R1", Title: "float→integer conversions are range-guarded", Floor: 3, Run: c17R1},
@@ -25,6 +26,7 @@ func propC17() *Property {
 			{ID: "C17.R5", Title: "single values are promoted to one-element lists", Floor: 1, Run: c17R5},
 			{ID: "C17.R6", Title: "the sanitiser behind GetString filters every rune on every path", Floor: 1, Run: scrubIsTotal},
 			{ID: "C17.R7", Title: "an accessor that reports no error hands out a usable value", Floor: 2, Run: c17R7},
+			{ID: "C17.R10", Title: "a media type is two RFC 9110 tokens around a slash: the character classes of the pattern behind mime.Parse are exactly the token characters", Floor: 2, Run: c17R10},
 			{ID: "C17.R9", Title: "what an accessor returns depends on the document alone: the accessors and what they call keep no state between calls (same instances as C08.R6)", Floor: 28, Run: c08R6},
 			{ID: "C17.R8", Title: "the number GetNumber hands out is the conversion of the document's own double", Floor: 1, Run: c17R8},
 		},
@@ -757,5 +759,122 @@ func c17R8(c *Ctx) {
 	}
 	if n == 0 {
 		c.bad(fname+"/value", P.Pos(fn.Pos()), fname, "GetNumber has no return that accepts a number")
+	}
+}
+
+// c17R10: GetMediaType / GetMarkup classify a string as a media type through
+// mime.Parse, whose recogniser is a regular expression. The pattern is parsed
+// (regexp/syntax) and the character class of each of the two name groups is
+// compared, as a set, with the token characters of RFC 9110 —
+// "!#$%&'*+-.^_`|~", digits and letters. A class written in another order is
+// the same set; a class in which `+-.` has become a range (and so admits the
+// comma), or that has lost or gained a character, is not.
+func c17R10(c *Ctx) {
+	P := c.P
+	fn := P.FuncOpt("servitor/mime", "Parse")
+	if fn == nil {
+		c.bad("servitor/mime.Parse", "mime", "servitor/mime", "mime.Parse not found")
+		return
+	}
+	fname := FuncName(fn)
+	var pat string
+	var at ssa.Instruction
+	eachInstr(fn, func(_ *ssa.BasicBlock, _ int, in ssa.Instruction) {
+		call, ok := in.(*ssa.Call)
+		if !ok {
+			return
+		}
+		sc := call.Call.StaticCallee()
+		if sc == nil || sc.Pkg == nil || sc.Pkg.Pkg.Path() != "regexp" || !strings.HasPrefix(sc.Name(), "Find") && !strings.HasPrefix(sc.Name(), "Match") {
+			return
+		}
+		if p, ok := patternOfRegexpValue(P, call.Call.Args[0]); ok {
+			pat, at = p, in
+		}
+	})
+	if at == nil {
+		c.bad(fname+"/pattern", P.Pos(fn.Pos()), fname, "the recogniser of media types is not a regular expression with a constant pattern: what mime.Parse accepts cannot be established")
+		return
+	}
+	re, err := syntax.Parse(pat, syntax.Perl)
+	if err != nil {
+		c.bad(fname+"/pattern", P.InstrPos(at), fname, "the media type pattern does not parse: "+err.Error())
+		return
+	}
+	want := map[rune]bool{}
+	for _, r := range "!#$%&'*+-.^_`|~" {
+		want[r] = true
+	}
+	for r := '0'; r <= '9'; r++ {
+		want[r] = true
+	}
+	for r := 'a'; r <= 'z'; r++ {
+		want[r] = true
+		want[r-'a'+'A'] = true
+	}
+	// the class under each capture that holds a name (a repetition of one character class)
+	n := 0
+	var walk func(r *syntax.Regexp)
+	walk = func(r *syntax.Regexp) {
+		if r.Op == syntax.OpCapture && len(r.Sub) == 1 {
+			rep := r.Sub[0]
+			if (rep.Op == syntax.OpPlus || rep.Op == syntax.OpStar || rep.Op == syntax.OpRepeat) && len(rep.Sub) == 1 && rep.Sub[0].Op == syntax.OpCharClass {
+				cls := rep.Sub[0]
+				n++
+				got := map[rune]bool{}
+				tooWide := false
+				for i := 0; i+1 < len(cls.Rune); i += 2 {
+					if cls.Rune[i+1]-cls.Rune[i] > 200 {
+						tooWide = true
+						break
+					}
+					for x := cls.Rune[i]; x <= cls.Rune[i+1]; x++ {
+						got[x] = true
+					}
+				}
+				var extra, missing []string
+				for x := range got {
+					if !want[x] {
+						extra = append(extra, fmt.Sprintf("%q", x))
+					}
+				}
+				for x := range want {
+					if !got[x] {
+						missing = append(missing, fmt.Sprintf("%q", x))
+					}
+				}
+				sortStrings(extra)
+				sortStrings(missing)
+				okCls := !tooWide && len(extra) == 0 && len(missing) == 0 && rep.Op != syntax.OpStar
+				why := "the name class of the media type pattern is not the set of token characters:"
+				if tooWide {
+					why += " it spans a wide range of characters"
+				}
+				if len(extra) > 0 {
+					why += " it also admits " + strings.Join(extra, " ")
+				}
+				if len(missing) > 0 {
+					why += " it lacks " + strings.Join(missing, " ")
+				}
+				if rep.Op == syntax.OpStar {
+					why += " an empty name is accepted"
+				}
+				c.check(okCls, fmt.Sprintf("%s/token-class#%d", fname, n), P.InstrPos(at), fname, "a non-empty run of exactly the RFC 9110 token characters", why+" (strings that are not media types are classified as media types, or media types are refused)")
+				return
+			}
+		}
+		for _, s := range r.Sub {
+			walk(s)
+		}
+	}
+	walk(re)
+	c.check(n == 2, fname+"/two-names", P.InstrPos(at), fname, "supertype and subtype are each one group over a character class", fmt.Sprintf("the pattern has %d name groups over a character class where two (supertype, subtype) are expected", n))
+}
+
+func sortStrings(xs []string) {
+	for i := 1; i < len(xs); i++ {
+		for j := i; j > 0 && xs[j] < xs[j-1]; j-- {
+			xs[j], xs[j-1] = xs[j-1], xs[j]
+		}
 	}
 }
